@@ -656,6 +656,48 @@ def run(ctx):
         if not okenc or rc2 != 0 or not os.path.isfile(src) or open(src, "rb").read() != data:
             ctx.fail("asconcrypt:file-names", "round trip by default names of a file called %r: encrypt exit %s, decrypt exit %s: %s" % (name[:40], rc, rc2, (e + e2)[-120:]))
         ctx.stat("nontrivial")
+    # failures under every spelling of the output name: explicit -o NAME (NAME may begin with a dash: it is the option's argument) and default names of inputs given after "--"
+    d3 = wd()
+    os.makedirs(os.path.join(d3, "sub dir"))
+    plain = content(300, 1)
+    write(os.path.join(d3, "good.bin"), plain)
+    tool([crypt, "-e", "-p", "pw", "-o", "good.enc", "good.bin"], cwd=d3)
+    genc = open(os.path.join(d3, "good.enc"), "rb").read()
+    bad = {"wrong-password": (genc, "other"), "modified-payload": (genc[:150] + bytes([genc[150] ^ 1]) + genc[151:], "pw"), "modified-tag": (genc[:-1] + bytes([genc[-1] ^ 0x80]), "pw"),
+           "truncated": (genc[:-7], "pw"), "header-only": (genc[:80], "pw")}
+    for oname in ("-out.bin", "--out.bin", "-", "-o", "--", "-d", "./-out.bin", "sub dir/-out.bin", "out put.bin", "out\nput.bin", "\xc3\xa9.bin", "-\xff.bin"):
+        if oname == "-":
+            continue      # standard output: covered by the stdin/stdout section
+        full = os.path.join(d3, oname)
+        rc, o, e = tool([crypt, "-d", "-p", "pw", "-o", oname, "good.enc"], cwd=d3)
+        if rc != 0 or not os.path.isfile(full) or open(full, "rb").read() != plain:
+            ctx.fail("asconcrypt:output-names", "decrypting to -o %r: exit %d, output %s" % (oname, rc, "missing or wrong" ))
+        if os.path.exists(full):
+            os.unlink(full)
+        for what, (blob, pw) in sorted(bad.items()):
+            write(os.path.join(d3, "bad.enc"), blob)
+            rc, o, e = tool([crypt, "-d", "-p", pw, "-o", oname, "bad.enc"], cwd=d3)
+            left = os.path.lexists(full)
+            if rc == 0 or left:
+                ctx.fail("asconcrypt:output-names", "%s, output given as -o %r: exit %d, output file %s" % (what, oname, rc, "LEFT BEHIND (%d bytes)" % os.path.getsize(full) if left else "absent"))
+            if left:
+                os.unlink(full)
+            ctx.stat("nontrivial")
+    for iname in ("-data.ascon", "--data.ascon", "-x", "-data"):
+        for what, (blob, pw) in [("genuine", (genc, "pw"))] + sorted(bad.items()):
+            write(os.path.join(d3, iname), blob)
+            oname = iname[:-6] if iname.endswith(".ascon") else iname + ".decrypted"
+            full = os.path.join(d3, oname)
+            rc, o, e = tool([crypt, "-d", "-p", pw, "--", iname], cwd=d3)
+            left = os.path.lexists(full)
+            if what == "genuine":
+                if rc != 0 or not left or open(full, "rb").read() != plain:
+                    ctx.fail("asconcrypt:output-names", "decrypting an input called %r given after --: exit %d, default output %r %s" % (iname, rc, oname, "missing or wrong"))
+            elif rc == 0 or left:
+                ctx.fail("asconcrypt:output-names", "%s, input %r given after --: exit %d, default output %r %s" % (what, iname, rc, oname, "LEFT BEHIND" if left else "absent"))
+            if left:
+                os.unlink(full)
+            ctx.stat("nontrivial")
     # paths at the system's limit (4095 bytes): with default output names the longer name cannot exist -- the tool must say so and leave the input alone, or produce a file that decrypts
     d2 = wd()
     dfd = os.open(d2, os.O_RDONLY)      # everything below is addressed relative to this directory: the absolute paths would be longer than the system allows
